@@ -241,10 +241,12 @@ SPECS["C16"] = ("""property C16: reopen and rebuild preserve everything observab
    8-byte aligned after the 8-byte header (no bytes of removed / replaced / deleted / ephemeral /
    failed-store leftovers).  Proved for every reachable state (DbRebuild.v): the rebuilt store satisfies
    all store invariants, every id lookup returns the same event, the same ids are deleted, extra tables
-   are copied.  That ADDRESS deletion markers (re-encoded through decode_naddr) keep their times, and
-   that queries answer identically, is checked by the differential run - full observation dump before
-   vs after, on the implementation and on the model, at every position.""",
-  DBIMP + "\nFrom Pocket Require Import DbIdInv DbIndexInv DbRebuild.", [
+   are copied, and every address keeps its deletion time (DbNaddr.v: the table's keys are encodings of
+   well-formed addresses in every reachable state, and decode_naddr inverts key_naddr).  Queries then
+   answer identically by the C05 exactness theorem (both states satisfy the invariants and return the
+   same event for every id); the per-run check compares the full observation dump before vs after on the
+   implementation and on the model, at every position.""",
+  DBIMP + "\nFrom Pocket Require Import DbIdInv DbIndexInv DbRebuild DbNaddr.", [
   ("C16_reopen_identity", "forall s, reopen s = s", "reopen_identity", ""),
   ("C16_rebuild_backup_partial",
    "forall s s', rebuild s = Ok s' -> bak s' = Some (log s, committed s) /\\ t_extra (committed s') = t_extra (committed s)",
@@ -255,6 +257,12 @@ SPECS["C16"] = ("""property C16: reopen and rebuild preserve everything observab
   ("C16_rebuild_preserves",
    "forall ops names s', ops_wf ops -> rebuild (c_run ops (db_init names)) = Ok s' ->\n    FullInv s' /\\\n    (forall id, get_event_by_id s' id = get_event_by_id (c_run ops (db_init names)) id) /\\\n    (forall id, has_event s' id = has_event (c_run ops (db_init names)) id) /\\\n    (forall id, event_is_deleted s' id = event_is_deleted (c_run ops (db_init names)) id) /\\\n    t_extra (committed s') = t_extra (committed (c_run ops (db_init names)))",
    "rebuild_preserves_reachable", "after ANY history: the rebuilt store satisfies every store invariant again (log, id index, all six secondary indexes exactly the image of the id index - so every later operation and query behaves as on an ordinarily built store), every id lookup returns the same event, the same ids are reported deleted, extra tables are copied"),
+  ("C16_rebuild_preserves_address_markers",
+   "forall ops names s', ops_wf ops -> rebuild (c_run ops (db_init names)) = Ok s' ->\n    forall a, naddr_is_deleted_asof s' a = naddr_is_deleted_asof (c_run ops (db_init names)) a",
+   "rebuild_preserves_address_markers_reachable", "after ANY history, every address (any d, also longer than the 182 bytes the other indexes keep) has the same deletion time after the rebuild as before"),
+  ("C16_decode_inverts_key_naddr",
+   "forall a, wf_addr a -> decode_naddr (key_naddr a) = a",
+   "decode_key_naddr", "the key of the deleted-address table holds the identifier whole: short ones padded and recovered by their recorded length, long ones (> 182 bytes) appended in full"),
   ], """Example C16_example :
   let e := mkE (repeat 1 32) (repeat 2 32) (repeat 3 64) 1 5 [] [7] in
   let e2 := mkE (repeat 9 32) (repeat 2 32) (repeat 3 64) 1 6 [] [7;7;7] in
